@@ -96,7 +96,53 @@ func recoverFile(info types.SegmentInfo, wf types.WritableFile, bufPool *sync.Po
 		return nil, err
 	}
 
+	if err := w.zeroAfterTail(); err != nil {
+		return nil, err
+	}
+
 	return w, nil
+}
+
+// zeroAfterTail overwrites any non-zero bytes that follow the recovered write
+// offset with zeros and syncs. Such bytes are the remains of a batch that was
+// torn by a crash. Recovery relies on everything after the last commit being
+// either zero or part of the single batch that was in flight: if stale frames
+// of an older torn batch were left in place, a later torn batch could be
+// followed by a stale commit frame (so its own, failing, CRC is never the final
+// one checked) or could be completed by stale bytes and pass the CRC check.
+func (w *Writer) zeroAfterTail() error {
+	// commitBuf is either empty or holds the file header that is (re)written at
+	// offset 0 with the first commit.
+	offset := int64(w.writer.writeOffset) + int64(len(w.writer.commitBuf))
+	buf := make([]byte, minBufSize)
+	var zeros []byte
+	dirty := false
+	for {
+		n, err := w.wf.ReadAt(buf, offset)
+		if err != nil && err != io.EOF {
+			return err
+		}
+		for _, b := range buf[:n] {
+			if b != 0 {
+				if zeros == nil {
+					zeros = make([]byte, minBufSize)
+				}
+				if _, err := w.wf.WriteAt(zeros[:n], offset); err != nil {
+					return err
+				}
+				dirty = true
+				break
+			}
+		}
+		offset += int64(n)
+		if err == io.EOF || n == 0 {
+			break
+		}
+	}
+	if dirty {
+		return w.wf.Sync()
+	}
+	return nil
 }
 
 func (w *Writer) initEmpty() error {
